@@ -19,6 +19,24 @@ def gen(rng, tier):
             m = gen_pomdp(rng, 1, 2, 2, gammas=(F(1, 2),))
             bs = gen_beliefs(rng, 1, 1)
             out.append("solve %s %s 2 %s %d %s" % (alg, repr_, fmt_pomdp(m), len(bs), " ".join(Qs(b) for b in bs)))
+    # LinearSupport on four and five states: the faces of the simplex have faces of their own, and the corners can be
+    # covered by fewer than S-1 vectors
+    for k in range({"quick": 40, "thorough": 150, "search": 80}[tier]):
+        S = rng.choice([4, 4, 5]); A = rng.choice([2, 2, 3]); O = rng.choice([1, 2, 2])
+        m = gen_pomdp(rng, S, A, O, gammas=(F(1, 2), F(3, 4)))
+        r = rng.random()
+        if r < 0.3:      # one action is best at most corners
+            for srow in m["R"]:
+                srow[0] = srow[0] + rng.choice([2, 4, 8])
+        elif r < 0.75:   # a compromise action that is best only in the interior: the corners are covered by two vectors,
+                         # every other useful vector must come from the vertex search
+            A = 3
+            m = gen_pomdp(rng, S, A, O, gammas=(F(1, 2), F(3, 4)))
+            for srow in m["R"]:
+                good = rng.randrange(2)
+                srow[good] = F(rng.randint(8, 16), 2); srow[1 - good] = -F(rng.randint(8, 16), 2); srow[2] = F(rng.randint(2, 4), 2)
+        bs = gen_beliefs(rng, S, 6)
+        out.append("solve ls %s %d %s %d %s" % (rng.choice(["dense", "dense", "sparse", "generic"]), rng.choice([1, 2, 2]), fmt_pomdp(m), len(bs), " ".join(Qs(b) for b in bs)))
     for k in range(n):
         S = rng.choice([2, 2, 3, 3]); A = rng.choice([1, 2, 2, 3]); O = rng.choice([1, 2, 2, 3, 4])
         m = gen_pomdp(rng, S, A, O, gammas=(F(1, 2), F(3, 4), F(3, 4), F(1)))
